@@ -139,6 +139,7 @@ pub struct GenParams {
   pub absorbing: bool,      // allow absorbing lists
   pub norepeat: bool,       // allow Disabled / Special
   pub special_bias: bool,   // more Special mappings (C09, C11)
+  pub shared_repeat: bool,  // every Special repeat of the layout has the same keys and timing
   pub max_mappings: usize
 }
 
@@ -221,6 +222,8 @@ fn gen_repeat(rng: &mut Rng, p: &GenParams, pool: &[KeyCode], idx: usize) -> Rep
       2 => (*rng.pick(&[-1, -180, i32::MIN + 64]), *rng.pick(&[-30, 30, i32::MIN + 64])),
       _ => (100 + 10 * idx as i32, 20 + idx as i32)
     };
+    // ... and in some layouts every Special repeat is the same (as in rows and in the shipped layouts)
+    if p.shared_repeat { return Repeat::Special { keys: vec![REPEAT_KEYS[0]], delay_ms: 180, interval_ms: 30 }; }
     Repeat::Special { keys, delay_ms: d + idx as i32 % 7, interval_ms: iv + idx as i32 % 5 }
   }
   else { Repeat::Normal }
@@ -278,6 +281,7 @@ pub fn gen_b(rng: &mut Rng, p: &GenParams) -> (Layout, Vec<Option<KeyCode>>) {
 // Generator C: layouts shaped like the shipped ones
 pub fn gen_c(rng: &mut Rng, p: &GenParams) -> (Layout, Vec<Option<KeyCode>>) {
   let mut mappings: Vec<Mapping> = Vec::new();
+  let palette: Vec<KeyCode> = { let n = rng.range(2, 3); rng.sample(&[LEFTSHIFT, LEFTCTRL, RIGHTALT, LEFTMETA, RIGHTCTRL, LEFTALT], n) };
   let letters = [A, B, C, D, J, K, SEMICOLON, COMMA];
   let outs = [LEFT, RIGHT, UP, EQUAL, K1, SLASH, A, B, N, PAGEDOWN, HOME];
   let mut idx = 0;
@@ -291,7 +295,7 @@ pub fn gen_c(rng: &mut Rng, p: &GenParams) -> (Layout, Vec<Option<KeyCode>>) {
       let x = *rng.pick(&letters);
       let y = *rng.pick(&outs);
       let mut to = vec![];
-      if rng.chance(1, 2) { to.push(*rng.pick(&[LEFTSHIFT, LEFTCTRL, RIGHTALT, LEFTMETA, RIGHTCTRL])); }
+      if rng.chance(1, 2) { to.push(*rng.pick(&palette)); }
       to.push(y);
       let mut from = vec![*l, x];
       if rng.chance(1, 6) { from.insert(0, *rng.pick(&[LEFTSHIFT, RIGHTSHIFT])); }
@@ -300,6 +304,14 @@ pub fn gen_c(rng: &mut Rng, p: &GenParams) -> (Layout, Vec<Option<KeyCode>>) {
       idx += 1;
       mappings.push(Mapping { from, to, repeat, absorbing: vec![] });
     }
+  }
+  // single keys that produce modifier + key (J -> Ctrl+Left), a few plain remaps
+  for _ in 0..rng.below(3) {
+    let x = *rng.pick(&letters); let y = *rng.pick(&outs);
+    if x == y { continue; }
+    let to = if rng.chance(2, 3) { vec![*rng.pick(&palette), y] } else { vec![y] };
+    let repeat = gen_repeat(rng, p, &[LEFTCTRL, LEFTSHIFT], idx); idx += 1;
+    mappings.push(Mapping { from: vec![x], to, repeat, absorbing: vec![] });
   }
   // shift rows, absorbing, often Disabled
   if p.absorbing && rng.chance(2, 3) {
@@ -325,7 +337,7 @@ pub fn gen_c(rng: &mut Rng, p: &GenParams) -> (Layout, Vec<Option<KeyCode>>) {
   // modifier remap with overlays
   if rng.chance(1, 2) {
     let g = GRAVE;
-    let md = *rng.pick(&[LEFTMETA, LEFTALT, RIGHTCTRL, RIGHTMETA]);
+    let md = if rng.chance(2, 3) { *rng.pick(&palette) } else { *rng.pick(&[LEFTMETA, LEFTALT, RIGHTCTRL, RIGHTMETA]) };
     mappings.push(Mapping { from: vec![g], to: vec![md], ..Default::default() });
     let nov = rng.range(0, 2);
     for _ in 0..nov {
@@ -348,6 +360,48 @@ pub fn gen_c(rng: &mut Rng, p: &GenParams) -> (Layout, Vec<Option<KeyCode>>) {
   if mappings.is_empty() {
     mappings.push(Mapping { from: vec![CAPSLOCK], to: vec![], ..Default::default() });
   }
+  let markers = vec![None; mappings.len()];
+  (Layout { mappings }, markers)
+}
+
+// Generator E: absorbing-centric. A few modifiers M and letters x; chords [M,x] absorbing M with every kind of output
+// (with or without M, modifier-only, a letter that is itself a trigger elsewhere), several chords on the same final key,
+// letters used as modifiers of further chords, single-key remaps of the same letters. Cross links between absorbing
+// mappings are the rule here, not the exception.
+pub fn gen_e(rng: &mut Rng, p: &GenParams) -> (Layout, Vec<Option<KeyCode>>) {
+  let nm = rng.range(2, 3);
+  let mods = rng.sample(&MODS, nm);
+  let nl = rng.range(2, 3);
+  let letters = rng.sample(&[A, B, C, D, J, K, SPACE, CAPSLOCK], nl);
+  let extra = *rng.pick(&[F5, UP, K1, ESC]);
+  let mut mappings: Vec<Mapping> = vec![];
+  let n = rng.range(2, 6);
+  for i in 0..n {
+    let m = *rng.pick(&mods);
+    let x = *rng.pick(&letters);
+    let kind = rng.below(10);
+    let mp = match kind {
+      // absorbing chord, output chosen from the small universe
+      0..=4 => {
+        let to: Vec<KeyCode> = match rng.below(7) {
+          0 => vec![m, x], 1 => vec![x], 2 => vec![*rng.pick(&mods)], 3 => vec![*rng.pick(&mods), *rng.pick(&letters)],
+          4 => vec![*rng.pick(&letters)], 5 => vec![extra], _ => vec![*rng.pick(&letters), *rng.pick(&mods)]
+        };
+        let from = if rng.chance(1, 5) { let m2 = *rng.pick(&mods); if m2 != m { vec![m, m2, x] } else { vec![m, x] } } else { vec![m, x] };
+        let absorbing = if rng.chance(4, 5) { vec![m] } else { from[..from.len() - 1].to_vec() };
+        Mapping { from, to, repeat: if p.norepeat && rng.chance(1, 3) { Repeat::Disabled } else { Repeat::Normal }, absorbing }
+      },
+      // a modifier chord on a modifier: [M1, M2] -> [M2] absorbing M1
+      5 => { let m2 = *rng.pick(&mods); if m2 == m { continue; } Mapping { from: vec![m, m2], to: vec![if rng.chance(2, 3) { m2 } else { *rng.pick(&letters) }], repeat: Repeat::Normal, absorbing: if rng.chance(2, 3) { vec![m] } else { vec![] } } },
+      // a letter as modifier of another chord
+      6 | 7 => { let y = *rng.pick(&letters); if y == x { continue; } Mapping { from: vec![x, y], to: vec![if rng.chance(1, 2) { extra } else { *rng.pick(&letters) }], repeat: gen_repeat(rng, p, &mods, i), absorbing: if rng.chance(1, 4) { vec![x] } else { vec![] } } },
+      // single-key mapping of a letter or a modifier
+      _ => { let k = if rng.chance(2, 3) { x } else { m }; Mapping { from: vec![k], to: match rng.below(4) { 0 => vec![], 1 => vec![*rng.pick(&mods)], 2 => vec![*rng.pick(&mods), *rng.pick(&letters)], _ => vec![*rng.pick(&letters)] }, repeat: gen_repeat(rng, p, &mods, i), absorbing: vec![] } }
+    };
+    if has_duplicate(&mp.from) || has_duplicate(&mp.to) { continue; }
+    mappings.push(mp);
+  }
+  if mappings.is_empty() { mappings.push(Mapping { from: vec![mods[0], letters[0]], to: vec![letters[0]], repeat: Repeat::Normal, absorbing: vec![mods[0]] }); }
   let markers = vec![None; mappings.len()];
   (Layout { mappings }, markers)
 }
@@ -383,7 +437,8 @@ pub fn valid_for_mapper(l: &Layout) -> bool {
 pub fn gen_case(rng: &mut Rng, p: &GenParams) -> LayoutCase {
   loop {
     let w = rng.below(20);
-    let (l, markers, src) = if w < 8 { let (l, m) = gen_a(rng, p); (l, m, "genA") }
+    let (l, markers, src) = if p.absorbing && w % 4 == 1 { let (l, m) = gen_e(rng, p); (l, m, "genE") }
+      else if w < 8 { let (l, m) = gen_a(rng, p); (l, m, "genA") }
       else if w < 15 { let (l, m) = gen_b(rng, p); (l, m, "genB") }
       else if w < 19 { let (l, m) = gen_c(rng, p); (l, m, "genC") }
       else { let (l, m) = gen_d(rng, p); (l, m, "genD") };
